@@ -32,6 +32,9 @@ def gen_record(r, n_refs, ref_len=10 ** 6):
     l_seq = r.choice([0, 1, 2, 3, 4, 7, 8, 15, 16, 33, 40]) if r.random() < 0.6 else r.randint(0, 40)
     n_ops = r.choice([0, 1, 1, 2, 3, 5, 8])
     cigar = [(r.choice(R2.CIGAR_OPS), r.randint(1, 300)) for _ in range(n_ops)]
+    if cigar and r.random() < 0.12:
+        # op_len is a 28-bit field: one long operation per record (long N skips, D, clips), around the byte boundaries of the field
+        cigar[r.randrange(n_ops)] = (r.choice("NDHSM"), r.choice([2 ** 16 - 1, 2 ** 16, 2 ** 20 + 3, 2 ** 24 - 1, 2 ** 24, 2 ** 24 + 5, 200000000, 2 ** 28 - 1]))
     seq = "".join(r.choice(R2.SEQ_ALPHABET if r.random() < 0.3 else "ACGT") for _ in range(l_seq))
     qual = None if (r.random() < 0.15) else [r.randint(0, 93) for _ in range(l_seq)]
     unmapped = n_refs == 0 or r.random() < 0.15
@@ -187,11 +190,15 @@ def run(ctx):
             if got is not None:
                 ctx.check("interval", got == exp_iv, "alignment_to_interval/interval", "alignment_to_interval gave %r expected %r" % (got[:3], exp_iv[:3]), dict(wit, got=[list(map(str, g)) for g in got[:5]]), nt and (nt, "a2i"))
         # 4. writing back: whole, filtered, reordered, repeated
-        if n:
-            sels = [("whole", list(range(n)), lambda t: t), ("mask", [i for i in range(n) if i % 2 == 0], lambda t: t[np.arange(n) % 2 == 0]),
-                    ("slice", list(range(n))[1:], lambda t: t[1:]), ("reversed", list(range(n))[::-1], lambda t: t[::-1])]
-            perm = r.sample(range(n), n)
-            sels.append(("fancy", perm + perm[:1], lambda t: t[np.array(perm + perm[:1])]))
+        if True:
+            sels = [("whole", list(range(n)), lambda t: t)]
+            if n:
+                sels += [("mask", [i for i in range(n) if i % 2 == 0], lambda t: t[np.arange(n) % 2 == 0]),
+                         ("slice", list(range(n))[1:], lambda t: t[1:]), ("reversed", list(range(n))[::-1], lambda t: t[::-1])]
+                perm = r.sample(range(n), n)
+                sels.append(("fancy", perm + perm[:1], lambda t: t[np.array(perm + perm[:1])]))
+                # a filter that selects nothing still gives a BAM (header, reference list, no records)
+                sels.append(r.choice([("empty-mask", [], lambda t: t[np.zeros(n, dtype=bool)]), ("empty-slice", [], lambda t: t[n:]), ("empty-filter", [], lambda t: t[t.mapq > 300])]))
             for sname, idx, sel in sels:
                 out = ctx.path("o.bam")
                 state = {}
@@ -205,9 +212,15 @@ def run(ctx):
                     with bnp.open(out, "w") as f:
                         f.write(st)
                     state["after"] = st
-                    return R2.decode_bam(open(out, "rb").read())
+                    return open(out, "rb").read()
                 res = guarded("write", "write:" + sname, wr)
                 if res is None:
+                    continue
+                try:
+                    res = R2.decode_bam(res)
+                except Exception as e:      # the reference decoder cannot read what was written: not a BAM
+                    ctx.check("write", False, "write:%s/output-is-not-a-bam" % ("empty-selection" if not idx else sname), "the file written from selection %s (%d records) is not decodable as BAM: %s %s" % (sname, len(idx), type(e).__name__, str(e)[:80]),
+                              dict(wit, selection=sname, size=len(res)), nt and (nt, sname))
                     continue
                 refs2, recs2 = res
                 # writing must not disturb the table that was written: its fields still decode to the selected records
